@@ -506,3 +506,208 @@ Definition table_try_into (e : enum) :=
   | EOk ims => EOk (map (fun im => (ti_mode im, ti_types im, ti_variant_names im, map (eval_try_from e im) (values_of e))) ims)
   | EErr => EErr | EPanic => EPanic
   end.
+
+(* ------------------------------------------------------------------ failure messages *)
+
+(** [Ident]'s [Display] and [stringify!(ident)] keep the [r#] of a raw identifier *)
+Definition ident_display (i : ident) : str := if id_raw i then (114 :: 35 :: id_name i)%N else id_name i.
+
+Definition s_called : str := [99; 97; 108; 108; 101; 100; 32; 96]%N.            (* "called `" *)
+Definition s_attempt : str := [65; 116; 116; 101; 109; 112; 116; 32; 116; 111; 32; 99; 97; 108; 108; 32; 96]%N.   (* "Attempt to call `" *)
+Definition s_colons : str := [58; 58]%N.
+Definition s_on_a : str := [40; 41; 96; 32; 111; 110; 32; 97; 32; 96]%N.             (* "()` on a `" *)
+Definition s_value : str := [96; 32; 118; 97; 108; 117; 101]%N.                (* "` value" *)
+Definition s_only : str := [79; 110; 108; 121; 32]%N.
+Definition s_can_be : str := [32; 99; 97; 110; 32; 98; 101; 32; 99; 111; 110; 118; 101; 114; 116; 101; 100; 32; 116; 111; 32]%N.
+Definition s_comma : str := [44; 32]%N.
+
+(** unwrap.rs:160-162 [format!("called `{enum_name}::{fn_name}()` on a `{enum_name}::{variant_ident}` value")] *)
+Definition panic_msg (ename fn : str) (actual : ident) : str :=
+  s_called ++ ename ++ s_colons ++ fn ++ s_on_a ++ ename ++ s_colons ++ ident_display actual ++ s_value.
+
+(** src/try_unwrap.rs:35-46 [Display for TryUnwrapError], fed by try_unwrap.rs:165-172
+    ([stringify!] of the enum, the variant of the arm that matched, the function) *)
+Definition try_unwrap_error_display (ename fn : str) (actual : ident) : str :=
+  s_attempt ++ ename ++ s_colons ++ fn ++ s_on_a ++ ename ++ s_colons ++ ident_display actual ++ s_value.
+
+Fixpoint join (sep : str) (l : list str) : str :=
+  match l with
+  | [] => []
+  | [x] => x
+  | x :: r => x ++ sep ++ join sep r
+  end.
+
+(** try_into.rs:74-82 output_type (the spelling of a type is proc_macro's: a parameter) *)
+Definition try_into_output_type (ty_str : N -> str) (tys : list N) : str :=
+  match tys with
+  | [t] => ty_str t
+  | _ => (40 :: join s_comma (map ty_str tys) ++ [41])%N
+  end.
+(** try_into.rs:83-91 variant_names *)
+Definition try_into_variant_names (ids : list ident) : str := join s_comma (map ident_display ids).
+(** src/convert.rs:87-95 [Display for TryIntoError] *)
+Definition try_into_error_display (names out : str) : str := s_only ++ names ++ s_can_be ++ out.
+
+(** what the caller observes of a failed accessor: the payload of the panic / the [Display] of the error *)
+Definition unwrap_message (ename : str) (o : outcome) : option str :=
+  match o with Panics fn a => Some (panic_msg ename fn a) | _ => None end.
+Definition try_unwrap_message (ename : str) (r : tresult) : option str :=
+  match r with TErr _ fn a => Some (try_unwrap_error_display ename fn a) | _ => None end.
+Definition try_into_message (ty_str : N -> str) (im : ti_impl) (r : iresult) : option str :=
+  match r with
+  | IErr _ => Some (try_into_error_display (try_into_variant_names (ti_variant_names im))
+                                           (try_into_output_type ty_str (ti_types im)))
+  | _ => None
+  end.
+
+(* ------------------------------------------------------------------ the full attribute syntax *)
+
+(** names a nested meta item can carry; [NOther] stands for every other identifier
+    ([forward], [types], [source], ... : none is accepted by these derives) *)
+Inductive mname := NIgnore | NOwned | NRef | NRefMut | NNot | NOther.
+(** utils.rs:1141 polyfill::Meta: a path, or a path with a parenthesised list *)
+Inductive mitem := MPath (n : mname) | MList (n : mname) (items : list mitem).
+(** one [#[<trait_attr> ...]] attribute: [#[x]], [#[x(items)]], [#[x = ..]] *)
+Inductive rattr := RPath | RList (items : list mitem) | RNameValue.
+
+Definition param_of_name (n : mname) : option param :=
+  match n with NIgnore => Some PIgnore | NOwned => Some POwned | NRef => Some PRef | NRefMut => Some PRefMut | _ => None end.
+Definition name_allowed (allowed : list param) (n : mname) : bool :=
+  match param_of_name n with Some p => existsb (param_eqb p) allowed | None => false end.
+
+(** utils.rs:879-1042 parse_punctuated_nested_meta (the [types] arm needs "types" among the allowed
+    parameters, which none of these derives has) *)
+Fixpoint parse_item (allowed : list param) (wrapper : option mname) (it : mitem) (i : meta) {struct it} : option meta :=
+  match it with
+  | MList NNot items =>                                   (* :887-901 *)
+      if is_some wrapper then None                        (* "multiple or nested `not` parameters" *)
+      else (fix go (l : list mitem) (i : meta) : option meta :=
+              match l with
+              | [] => Some i
+              | x :: r => match parse_item allowed (Some NNot) x i with None => None | Some i' => go r i' end
+              end) items i
+  | MList n items =>                                      (* :903-1001 *)
+      if negb (name_allowed allowed n) then None          (* "Attribute nested parameter not supported" *)
+      else
+        match wrapper, n with
+        | None, NOwned | None, NRef | None, NRefMut =>
+            match param_of_name n with
+            | Some p =>
+                (fix go (l : list mitem) (i : meta) : option meta :=
+                   match l with
+                   | [] => Some i
+                   | x :: r => match parse_item allowed (Some n) x i with None => None | Some i' => go r i' end
+                   end) items (set_param p i)
+            | None => None
+            end
+        | _, _ => None                                    (* "doesn't support nested parameter `..` here" *)
+        end
+  | MPath n =>                                            (* :1003-1037 *)
+      if negb (name_allowed allowed n) then None          (* "Attribute parameter not supported" *)
+      else
+        match wrapper, param_of_name n with
+        | None, Some p => Some (set_param p i)
+        | _, _ => None                                    (* "doesn't support parameter `..` here" *)
+        end
+  end.
+
+Fixpoint parse_items (allowed : list param) (wrapper : option mname) (l : list mitem) (i : meta) : option meta :=
+  match l with
+  | [] => Some i
+  | x :: r => match parse_item allowed wrapper x i with None => None | Some i' => parse_items allowed wrapper r i' end
+  end.
+
+(** utils.rs:813-877 get_meta_info over the attributes named [trait_attr], in source order *)
+Definition get_meta_info_rich (allowed : list param) (attrs : list rattr) : option meta :=
+  match attrs with
+  | [] => Some meta_none
+  | a :: rest =>
+      match allowed with
+      | [] => None                                        (* "Attribute is not allowed here" *)
+      | _ =>
+          match rest with
+          | _ :: _ => None                                (* "Only a single attribute is allowed" *)
+          | [] =>
+              let i0 := {| m_enabled := Some true; m_owned := None; m_ref := None; m_mut := None |} in
+              match a with
+              | RPath => if existsb (param_eqb PIgnore) allowed then Some i0 else None
+              | RList items => parse_items allowed None items i0
+              | RNameValue => None                        (* "doesn't support name-value format here" *)
+              end
+          end
+      end
+  end.
+
+(** the flat parameter list a list of items amounts to (see Proofs.parse_items_flat) *)
+Fixpoint flatten_items (l : list mitem) : option (list param) :=
+  match l with
+  | [] => Some []
+  | MPath n :: r => match param_of_name n, flatten_items r with Some p, Some ps => Some (p :: ps) | _, _ => None end
+  | MList NNot [] :: r => flatten_items r
+  | MList n [] :: r =>
+      match n, param_of_name n, flatten_items r with
+      | NIgnore, _, _ => None
+      | _, Some p, Some ps => Some (p :: ps)
+      | _, _, _ => None
+      end
+  | MList _ (_ :: _) :: _ => None
+  end.
+
+Definition lower_attrs (attrs : list rattr) : option attr :=
+  match attrs with
+  | [] => Some None
+  | [RPath] => Some (Some [])
+  | [RList items] => match flatten_items items with Some ps => Some (Some ps) | None => None end
+  | _ => None
+  end.
+
+Record rfield := { rf_ty : N; rf_attrs : list rattr }.
+Record rvariant := { rv_ident : ident; rv_kind : vkind; rv_fields : list rfield; rv_attrs : list rattr }.
+Record renum := { re_attrs : list rattr; re_variants : list rvariant }.
+
+Definition lower_field (f : rfield) : option field :=
+  match lower_attrs (rf_attrs f) with Some a => Some {| f_ty := rf_ty f; f_attr := a |} | None => None end.
+Definition lower_variant (v : rvariant) : option variant :=
+  match lower_attrs (rv_attrs v), mapM lower_field (rv_fields v) with
+  | Some a, Some fs => Some {| v_ident := rv_ident v; v_kind := rv_kind v; v_fields := fs; v_attr := a |}
+  | _, _ => None
+  end.
+(** an enum written with the full attribute syntax either is rejected with a [syn::Error] by one of its
+    [get_meta_info] calls, or is handled exactly like the enum with the flattened attributes *)
+Definition lower_enum (e : renum) : option enum :=
+  match lower_attrs (re_attrs e), mapM lower_variant (re_variants e) with
+  | Some a, Some vs => Some {| e_attr := a; e_variants := vs |}
+  | _, _ => None
+  end.
+
+Definition assoc_ty (t : list (N * str)) (k : N) : str :=
+  match find (fun p => N.eqb (fst p) k) t with Some p => snd p | None => [] end.
+
+(** tables for the tie: the failure message is printed once per accessor, with the variant of the value left
+    as a hole (the NUL identifier); by [Proofs.unwrap_failure_message] the message of a cell is this text with
+    the [ident_display] of the variant the outcome names *)
+Definition hole_ident : ident := {| id_raw := false; id_name := [0%N] |}.
+
+Definition table_unwrap_m (ename : str) (t : list (str * str)) (e : enum) :=
+  match expand_unwrap (assoc_str t) e with
+  | EOk fs => EOk (map (fun f => (uw_name f, uw_mode f, panic_msg ename (uw_name f) hole_ident,
+                                  map (eval_unwrap e f) (values_of e))) fs)
+  | EErr => EErr | EPanic => EPanic
+  end.
+Definition table_try_unwrap_m (ename : str) (t : list (str * str)) (e : enum) :=
+  match expand_try_unwrap (assoc_str t) e with
+  | EOk fs => EOk (map (fun f => (uw_name f, uw_mode f, try_unwrap_error_display ename (uw_name f) hole_ident,
+                                  map (eval_try_unwrap e f) (values_of e))) fs)
+  | EErr => EErr | EPanic => EPanic
+  end.
+Definition table_try_into_m (tt : list (N * str)) (e : enum) :=
+  match expand_try_into e with
+  | EOk ims => EOk (map (fun im => (ti_mode im, ti_types im,
+                                    try_into_error_display (try_into_variant_names (ti_variant_names im))
+                                                           (try_into_output_type (assoc_ty tt) (ti_types im)),
+                                    map (eval_try_from e im) (values_of e))) ims)
+  | EErr => EErr | EPanic => EPanic
+  end.
+
+Definition rich (A : Type) (f : enum -> expansion A) (e : renum) : expansion A :=
+  match lower_enum e with Some e' => f e' | None => EErr end.
